@@ -51,9 +51,11 @@ func (r *SimReader) budget() bool {
 	if r.Ops > r.Budget {
 		if !r.OverBudget {
 			r.OverBudget = true
-			r.S.mu.Lock()
-			r.S.violate(VReaderBudget, "more than 64*(len+16) reader operations in one run")
-			r.S.mu.Unlock()
+			if r.S != nil {
+				r.S.mu.Lock()
+				r.S.violate(VReaderBudget, "more than 64*(len+16) reader operations in one run")
+				r.S.mu.Unlock()
+			}
 		}
 		return false
 	}
@@ -165,9 +167,11 @@ func (r *SimByteReader) Read(p []byte) (int, error) {
 	if r.Ops > r.Budget {
 		if !r.OverBudget {
 			r.OverBudget = true
-			r.S.mu.Lock()
-			r.S.violate(VReaderBudget, "more than 64*(len+16) Read calls in one run")
-			r.S.mu.Unlock()
+			if r.S != nil {
+				r.S.mu.Lock()
+				r.S.violate(VReaderBudget, "more than 64*(len+16) Read calls in one run")
+				r.S.mu.Unlock()
+			}
 		}
 		return 0, io.EOF
 	}
